@@ -937,6 +937,7 @@ package yang
 //@ lock_property C19
 //@ guarded_by Modules.byNS nsMu
 //@ guarded_by Modules.entryCache entryCacheMu
+//@ guarded_by Modules.definedLater entryCacheMu
 //@ guarded_by typeDictionary.dict mu
 //@ write_guarded_by identityDictionary.dict mu
 // Package-level tables that every goroutine reads: written by init only.
